@@ -272,7 +272,13 @@ static void sink(const unsigned char *s, size_t n, void *arg) {
         case EEAV_DOMAIN_TOO_LONG: if (!(whyset & (1 << RD_TOO_LONG)) && ddn <= 253) bad = "domain has <= 253 characters"; break;
         case EEAV_DOMAIN_NUMERIC: if (!(whyset & (1 << RD_NUMERIC))) bad = "domain is not all-numeric"; break;
         case EEAV_DOMAIN_NOT_FQDN: if (!t) bad = "TLD checking is off"; else if (memchr(DD, '.', ddn) && !(ddn && DD[ddn - 1] == '.' && !memchr(DD, '.', ddn - 1))) bad = "domain has a dot"; else if (ref_special((const char *)DD, ddn)) bad = "domain is a reserved name"; break;
-        case EEAV_IPADDR_INVALID: if (!(dn && D[0] == '[')) bad = "domain does not start with '['"; else if (dv == R_ACC) bad = "the literal is valid"; break;
+        case EEAV_IPADDR_INVALID: if (!(dn && D[0] == '[')) bad = "domain does not start with '['"; else if (dv == R_ACC) bad = "the literal is valid";
+            /* "the error code corresponds to the code returned by the failing per-part validator": where the text between the brackets is handed to the
+             * library's own public validator of its family (tag or ':' => is_ipv6, else is_ipv4) and that validator accepts it, no validator failed */
+            else if (dn > 8 && dn < 600 && D[dn - 1] == ']') { char in[600]; size_t il = dn - 2; memcpy(in, D + 1, il); in[il] = 0; int ok;
+                if (il > 5 && strncasecmp(in, "IPv6:", 5) == 0) ok = is_ipv6(in + 5, in + il); else if (memchr(in, ':', il)) ok = is_ipv6(in, in + il); else ok = is_ipv4(in, in + il);
+                if (ok) bad = "the library's own is_ipv4/is_ipv6 accepts the text between the brackets"; }
+            break;
         case EEAV_IPADDR_BRACKET_UNPAIR: if (!(dn && D[0] == '[') || memchr(D, ']', dn)) bad = "there is a closing bracket (or no opening one)"; break;
         case EEAV_TLD_INVALID: { if (!t) { bad = "TLD checking is off"; break; } if (!memchr(DD, '.', ddn)) { bad = "the domain has a single label (not-FQDN is the true reason)"; break; } size_t i = ddn; while (i > 0 && DD[i - 1] != '.') i--; if (rt_lookup(&RT_PUNY, (const char *)DD + i, ddn - i)) bad = "the last label is in the table"; } break;
         default:
